@@ -3,7 +3,7 @@
 //! Real side: the real `retry_with_backoff`, `with_timeout`, `batch_in_chunks`, `paginate` and the
 //! wrappers of `helpers::cloud` driven by *scripted closures* (a closure that answers the next
 //! outcome of a script, counts its calls and records its arguments). Back-off delays are observed
-//! through the `verif_hooks::on_sleep` callback (delays are 0..3 ms so real sleeping is negligible).
+//! through the `verif_hooks::on_sleep` callback (delays are 0..3 ms, 5/8 ms in a few timed cases).
 //!
 //! Requests (see `lean/IbModel/Driver/D18.lean` for the grammar):
 //!   RETRY <raw|run|cio|tr|ciotr|bld|exe> max=<n|-> init= cap= mult=<f64 bits> lim=<ms|-> d=<ms> s=<script>
@@ -11,14 +11,25 @@
 //!   PAGE <raw|run|cio> psize=<k> max=<m|-> p=<script>
 //!   TIMEOUT lim=<ms> el=<ms> r=<ok|Kind>
 //!   IOBATCH max= init= cap= mult= n=<items> s=<script>
+//!   TIMING near=<n> reruns=<r> lost=<l>
 //!
 //! Oracles (independent of the Lean model; they restate the property on the observed calls):
 //! attempt count = min(1 + index of first Ok/permanent outcome, max(1,budget)); no call after a
 //! terminal outcome; returned outcome = outcome of the last call (value for value); every wait after
-//! the first <= cap (number and exact values of the waits: model correspondence only); chunks handed to the processor are non-empty,
+//! the first <= cap (number and exact values of the waits: model correspondence only); the per-item batch
+//! calls the operation for exactly the items the property replayed on the script demands (each item until
+//! it succeeds / fails permanently / used its budget, in order, nothing after the first failing item);
+//! chunks handed to the processor are non-empty,
 //! <= max(size,1), concatenate to a prefix of the items / all items, stop at the first failing
 //! chunk; pages are concatenated up to the first empty / final page / page limit, errors pass through;
 //! an Ok result that overran its limit is a Timeout error.
+//!
+//! Real time. Back-off delays in the exhaustive / random blocks are 0..3 ms and really slept (the blocks
+//! with non-zero delays run on worker threads; the `on_sleep` recorder is thread-local). Timed cases use
+//! the nominal clock (scripted call durations + recorded waits) for the model; a nominally-within run
+//! whose real clock came within 1 ms of the limit is repeated up to 8 times (with a growing pause), then judged by the real clock
+//! only. Such cases are counted (`timing:*`), reported as a `TIMING` case, and bounded:
+//! more than max(2, near-limit cases / 10) of them is the oracle failure `timing-skip-rate-exceeded`.
 
 use crate::ctx::{Ctx, Tier, guarded};
 use ironbeam::helpers::cloud::{
@@ -85,17 +96,21 @@ fn spec_transient(k: usize) -> bool {
 // sleep recorder (verif_hooks::on_sleep)
 // ---------------------------------------------------------------------------------------------
 
-static SLEEPS: Mutex<Vec<u64>> = Mutex::new(Vec::new());
+// The recorder is thread-local: `on_sleep` is called on the thread that runs `retry_with_backoff`, so the
+// blocks that run real (non-zero) sleeps on several threads at once each see only their own delays.
+thread_local! {
+    static SLEEPS: RefCell<Vec<u64>> = const { RefCell::new(Vec::new()) };
+}
 static INSTALL: Once = Once::new();
 fn install_sleep_hook() {
     INSTALL.call_once(|| {
         ironbeam::verif_hooks::set_sleep_callback(Some(Arc::new(|ms| {
-            SLEEPS.lock().unwrap().push(ms);
+            SLEEPS.with(|s| s.borrow_mut().push(ms));
         })));
     });
 }
 fn take_sleeps() -> Vec<u64> {
-    std::mem::take(&mut *SLEEPS.lock().unwrap())
+    SLEEPS.with(|s| std::mem::take(&mut *s.borrow_mut()))
 }
 
 /// Translator route: which kinds does the RUNNING `retry_with_backoff` retry? Probed behaviourally:
@@ -227,9 +242,40 @@ fn cfg_str(rc: Option<RCfg>) -> String {
 
 const W_RETRY_ONLY: [&str; 3] = ["raw", "run", "cio"];
 
-/// One RETRY case. `to_model = false`: oracle only (used for the bulk of the thorough exhaustive block).
-fn one_retry(cx: &mut Ctx, w: &str, rc: Option<RCfg>, lim: Option<u64>, d: u64, script: &[Oc], to_model: bool) {
+/// What one run of the real code produced, judged by the oracle, not yet registered in the `Ctx`
+/// (so that runs can be made on worker threads and registered afterwards in generation order).
+struct Rec {
+    /// `None`: no case to register (only the counters)
+    case: Option<(String, String, bool)>,
+    fails: Vec<(&'static str, String)>,
+    counts: Vec<String>,
+    /// must not be compared with the model (judged by the real clock only)
+    oracle_only: bool,
+}
+fn emit(cx: &mut Ctx, rec: Rec, to_model: bool, oracle_only_label: &str) {
+    for c in &rec.counts { cx.count(c); }
+    let Some((req, answer, nt)) = rec.case else { return };
+    if (to_model && !rec.oracle_only) || !rec.fails.is_empty() {
+        let i = cx.case(req, answer, nt);
+        for (sig, detail) in rec.fails { cx.oracle_fail(i, sig, detail); }
+    } else {
+        cx.count(oracle_only_label);
+    }
+}
+
+/// A timed case is *near its limit* when the nominal clock (scripted call durations + recorded sleeps) is
+/// below the limit by at most this much: only those can be disturbed by a slow machine.
+const NEAR_LIMIT_MS: u64 = 1_000;
+const TIMING_TRIES: usize = 8;
+const K_NEAR: &str = "timing:near-limit-cases(nominally within a limit <= 1 s away)";
+const K_RERUN: &str = "timing:rerun(real clock came within 1 ms of the limit)";
+const K_UNSTABLE: &str = "timing:unstable-after-8-runs(judged by the real clock only, not sent to the model)";
+const K_AMBIG: &str = "timing:nominal-equals-limit(generator artefact, skipped)";
+
+/// One RETRY case on the real code. Pure with respect to the `Ctx` (see `Rec`).
+fn exec_retry(w: &str, rc: Option<RCfg>, lim: Option<u64>, d: u64, script: &[Oc]) -> Rec {
     install_sleep_hook();
+    let mut counts: Vec<String> = vec![];
     let mut tries = 0;
     loop {
         tries += 1;
@@ -266,16 +312,25 @@ fn one_retry(cx: &mut Ctx, w: &str, rc: Option<RCfg>, lim: Option<u64>, d: u64, 
         let nominal: u64 = n as u64 * d + sleeps.iter().sum::<u64>();
         // timing guard: the model's clock is the nominal one (scripted durations + sleeps); the real
         // clock only ever runs later. If the run was nominally within the limit but the machine was so
-        // slow that it may have overrun, repeat the run (never observed more than once in a row).
+        // slow that it may have overrun, the run is repeated; if that happens TIMING_TRIES times in a row
+        // the case is still judged — by the real clock — but not compared with the model. Both are counted
+        // and the number of such cases is bounded at the end of `run` (`timing-skip-rate-exceeded`).
+        let mut real_clock_only = false;
         if let Some(t) = lim {
             if nominal == t {
-                cx.count("retry:timing-ambiguous(skipped)");
-                return;
+                counts.push(K_AMBIG.into());
+                return Rec { case: None, fails: vec![], counts, oracle_only: true };
             }
+            if nominal < t && t - nominal <= NEAR_LIMIT_MS && tries == 1 { counts.push(K_NEAR.into()); }
             if nominal < t && outer_ms + 1 >= t {
-                if tries < 4 { cx.count("retry:timing-rerun"); continue; }
-                cx.count("retry:timing-unstable(skipped)");
-                return;
+                if tries < TIMING_TRIES {
+                    counts.push(K_RERUN.into());
+                    // let a loaded machine settle before the rerun (a slow implementation stays slow)
+                    std::thread::sleep(Duration::from_millis(25 * tries as u64));
+                    continue;
+                }
+                counts.push(K_UNSTABLE.into());
+                real_clock_only = true;
             }
         }
         let out = match &r {
@@ -294,7 +349,7 @@ fn one_retry(cx: &mut Ctx, w: &str, rc: Option<RCfg>, lim: Option<u64>, d: u64, 
         let budget = rc.map_or(1usize, |c| (c.max as usize).max(1));
         let first_term = script.iter().position(Oc::terminal);
         let n_exp = first_term.map_or(budget, |i| (i + 1).min(budget));
-        let mut fails: Vec<(&str, String)> = vec![];
+        let mut fails: Vec<(&'static str, String)> = vec![];
         if r.is_err() {
             fails.push(("retry-panicked", format!("{r:?}")));
         } else if n_exp > script.len() {
@@ -302,7 +357,7 @@ fn one_retry(cx: &mut Ctx, w: &str, rc: Option<RCfg>, lim: Option<u64>, d: u64, 
             if !exhausted || n != script.len() {
                 fails.push(("retry-stopped-early", format!("script of {} transient outcomes, budget {budget}, but {calls} calls", script.len())));
             }
-            cx.count("retry:script-exhausted");
+            counts.push("retry:script-exhausted".into());
         } else {
             if n > budget { fails.push(("retry-too-many-attempts", format!("{n} calls, budget max(1,{})", budget))); }
             if let Some(i) = first_term { if n > i + 1 { fails.push(("retry-called-after-terminal", format!("{n} calls, outcome {i} was terminal"))); } }
@@ -316,7 +371,11 @@ fn one_retry(cx: &mut Ctx, w: &str, rc: Option<RCfg>, lim: Option<u64>, d: u64, 
                     },
                     Oc::Err(k) => format!("ERR:{}:{}", kind_name(k), n - 1),
                 };
-                if out != want {
+                // real-clock verdict for a run that stayed within 1 ms of its limit every time: a Timeout is
+                // legitimate iff the real clock (which includes everything with_timeout measured) passed the limit
+                let legit_real_timeout = real_clock_only && last == Oc::Ok && out == "ERR:Timeout:T"
+                    && lim.map_or(false, |t| outer_ms >= t);
+                if out != want && !legit_real_timeout {
                     let sig = if want == "ERR:Timeout:T" { "timeout-not-reported" }
                         else if out == "ERR:Timeout:T" { "timeout-spurious" }
                         else { "retry-wrong-outcome" };
@@ -331,23 +390,61 @@ fn one_retry(cx: &mut Ctx, w: &str, rc: Option<RCfg>, lim: Option<u64>, d: u64, 
                 if let Some(bad) = sleeps.iter().skip(1).find(|x| **x > c.cap) {
                     fails.push(("retry-sleep-exceeds-cap", format!("slept {bad} ms, cap {} ms", c.cap)));
                 }
+                if sleeps.len() >= 2 {
+                    counts.push(if c.cap == 0 { "retry:cap-clause-checked(cap=0)".into() } else { "retry:cap-clause-checked(cap>0)".to_string() });
+                }
             }
         }
-        cx.count(&format!("retry:w={w}"));
-        cx.count(&format!("retry:attempts={}", n.min(9)));
-        cx.count(match out.split(':').next().unwrap_or("") { "OK" => "retry:out=ok", "ERR" => "retry:out=err", "EXH" => "retry:out=exhausted", _ => "retry:out=panic" });
-        if to_model || !fails.is_empty() {
-            let nt = script.len() >= 2 && n >= 2;
-            let i = cx.case(req, answer, nt);
-            for (sig, detail) in fails { cx.oracle_fail(i, sig, detail); }
-        } else {
-            cx.count("retry:oracle-only(not sent to the model)");
+        counts.push(format!("retry:w={w}"));
+        counts.push(format!("retry:attempts={}", n.min(9)));
+        if let Some(c) = rc {
+            counts.push(format!("retry:delays={}", if c.init == 0 && c.cap == 0 { "zero" } else if c.init < c.cap { "init<cap" } else if c.init > c.cap { "init>cap" } else { "init=cap" }));
         }
-        return;
+        counts.push(match out.split(':').next().unwrap_or("") { "OK" => "retry:out=ok", "ERR" => "retry:out=err", "EXH" => "retry:out=exhausted", _ => "retry:out=panic" }.to_string());
+        let nt = script.len() >= 2 && n >= 2;
+        return Rec { case: Some((req, answer, nt)), fails, counts, oracle_only: real_clock_only };
     }
 }
 
-fn one_iobatch(cx: &mut Ctx, c: RCfg, n_items: usize, script: &[Oc]) {
+/// One RETRY case. `to_model = false`: oracle only (used for the bulk of the thorough exhaustive block).
+fn one_retry(cx: &mut Ctx, w: &str, rc: Option<RCfg>, lim: Option<u64>, d: u64, script: &[Oc], to_model: bool) {
+    let rec = exec_retry(w, rc, lim, d, script);
+    emit(cx, rec, to_model, "retry:oracle-only(not sent to the model)");
+}
+
+/// The property replayed item by item on the script (independent of the model): the items the operation must
+/// be called for, what must be returned, and how many outcomes of the script that consumes.
+fn iobatch_expect(max: u32, n_items: usize, script: &[Oc]) -> (Vec<u64>, String, usize) {
+    let budget = (max as usize).max(1);
+    let mut pos = 0usize;
+    let mut want_calls: Vec<u64> = vec![];
+    let mut want_vals: Vec<u64> = vec![];
+    let mut want_out: Option<String> = None; // None = ran off the script
+    let mut ran_off = false;
+    'items: for it in 0..n_items as u64 {
+        let mut made = 0usize;
+        loop {
+            if pos >= script.len() { ran_off = true; break 'items; }
+            let o = script[pos];
+            want_calls.push(it);
+            pos += 1;
+            made += 1;
+            match o {
+                Oc::Ok => { want_vals.push((pos - 1) as u64); break; }
+                Oc::Err(k) => {
+                    if !spec_transient(k) || made >= budget {
+                        want_out = Some(format!("ERR:{}:{}", kind_name(k), pos - 1));
+                        break 'items;
+                    }
+                }
+            }
+        }
+    }
+    let want_out = if ran_off { "EXH".to_string() } else { want_out.unwrap_or(format!("OK:{}", nats(&want_vals))) };
+    (want_calls, want_out, pos)
+}
+
+fn exec_iobatch(c: RCfg, n_items: usize, script: &[Oc]) -> Rec {
     install_sleep_hook();
     let s = Scripted::new(script, 0);
     let items: Vec<u64> = (0..n_items as u64).collect();
@@ -370,49 +467,52 @@ fn one_iobatch(cx: &mut Ctx, c: RCfg, n_items: usize, script: &[Oc]) {
     };
     let answer = format!("calls={} sl={} out={out}", nats(&calls), nats(&sleeps));
     let req = format!("IOBATCH {} n={n_items} s={}", cfg_str(Some(c)), script_str(script));
-    // ---- oracle: replay the property item by item on the script ----
-    let budget = (c.max as usize).max(1);
-    let mut pos = 0usize;
-    let mut want_calls: Vec<u64> = vec![];
-    let mut want_vals: Vec<u64> = vec![];
-    let mut want_out: Option<String> = None; // None = ran off the script
-    let mut ran_off = false;
-    'items: for it in &items {
-        let mut made = 0usize;
-        loop {
-            if pos >= script.len() { ran_off = true; break 'items; }
-            let o = script[pos];
-            want_calls.push(*it);
-            pos += 1;
-            made += 1;
-            match o {
-                Oc::Ok => { want_vals.push((pos - 1) as u64); break; }
-                Oc::Err(k) => {
-                    if !spec_transient(k) || made >= budget {
-                        want_out = Some(format!("ERR:{}:{}", kind_name(k), pos - 1));
-                        break 'items;
-                    }
-                }
-            }
-        }
-    }
-    let want_out = if ran_off { "EXH".to_string() } else { want_out.unwrap_or(format!("OK:{}", nats(&want_vals))) };
+    let (want_calls, want_out, _) = iobatch_expect(c.max, n_items, script);
     let nt = n_items >= 2 && script.len() >= 2;
-    let i = cx.case(req, answer, nt);
-    cx.count(&format!("iobatch:items={n_items}"));
+    let mut fails: Vec<(&'static str, String)> = vec![];
+    let mut counts = vec![format!("iobatch:items={n_items}")];
+    counts.push(format!("iobatch:delays={}", if c.init == 0 && c.cap == 0 { "zero" } else if c.init < c.cap { "init<cap" } else if c.init > c.cap { "init>cap" } else { "init=cap" }));
     if r.is_err() {
-        cx.oracle_fail(i, "iobatch-panicked", format!("{r:?}"));
+        fails.push(("iobatch-panicked", format!("{r:?}")));
     } else {
         if calls != want_calls {
-            cx.oracle_fail(i, "iobatch-wrong-calls", format!("operation called for items {calls:?}, expected {want_calls:?}"));
+            // "attempted until ..." for every item: too few calls for an item (no retry) as well as too many
+            fails.push(("iobatch-wrong-calls", format!("operation called for items {calls:?}, expected {want_calls:?}")));
         }
         if out != want_out {
-            cx.oracle_fail(i, "iobatch-wrong-outcome", format!("returned {out}, expected {want_out}"));
+            fails.push(("iobatch-wrong-outcome", format!("returned {out}, expected {want_out}")));
         }
         if sleeps.iter().any(|x| *x > c.cap.max(c.init)) {
-            cx.oracle_fail(i, "retry-sleep-exceeds-cap", format!("sleeps {sleeps:?}"));
+            fails.push(("retry-sleep-exceeds-cap", format!("sleeps {sleeps:?}")));
         }
     }
+    Rec { case: Some((req, answer, nt)), fails, counts, oracle_only: false }
+}
+
+fn one_iobatch_m(cx: &mut Ctx, c: RCfg, n_items: usize, script: &[Oc], to_model: bool) {
+    let rec = exec_iobatch(c, n_items, script);
+    emit(cx, rec, to_model, "iobatch:oracle-only(not sent to the model)");
+}
+fn one_iobatch(cx: &mut Ctx, c: RCfg, n_items: usize, script: &[Oc]) {
+    one_iobatch_m(cx, c, n_items, script, true);
+}
+
+/// Run `f` on every job on `threads` worker threads; results in job order (the jobs only sleep for real,
+/// 1–2 ms per back-off, so many more threads than cores are useful).
+fn par_map<J: Sync, O: Send>(jobs: &[J], threads: usize, f: impl Fn(&J) -> O + Sync) -> Vec<O> {
+    let next = std::sync::atomic::AtomicUsize::new(0);
+    let slots: Vec<Mutex<Option<O>>> = jobs.iter().map(|_| Mutex::new(None)).collect();
+    std::thread::scope(|sc| {
+        for _ in 0..threads.min(jobs.len().max(1)) {
+            sc.spawn(|| loop {
+                let i = next.fetch_add(1, std::sync::atomic::Ordering::Relaxed);
+                if i >= jobs.len() { break; }
+                let o = f(&jobs[i]);
+                *slots[i].lock().unwrap() = Some(o);
+            });
+        }
+    });
+    slots.into_iter().map(|m| m.into_inner().unwrap().expect("harness: worker did not finish its job")).collect()
 }
 
 // ---------------------------------------------------------------------------------------------
@@ -621,7 +721,8 @@ fn one_page(cx: &mut Ctx, w: &str, psize: u32, max_pages: Option<u32>, script: &
 
 fn one_timeout(cx: &mut Ctx, lim: u64, el: u64, r_in: Oc) {
     assert!(lim != el);
-    for attempt in 0..4 {
+    if el < lim && lim - el <= NEAR_LIMIT_MS { cx.count(K_NEAR); }
+    for attempt in 1..=TIMING_TRIES {
         let t0 = Instant::now();
         let r = guarded(|| {
             with_timeout(Duration::from_millis(lim), || -> CloudResult<u64> {
@@ -633,24 +734,55 @@ fn one_timeout(cx: &mut Ctx, lim: u64, el: u64, r_in: Oc) {
             })
         });
         let outer = t0.elapsed().as_millis() as u64;
+        // same guard as in `exec_retry`: repeat a nominally-within run that came within 1 ms of the limit;
+        // after TIMING_TRIES such runs judge by the real clock and keep the case away from the model
+        let mut real_clock_only = false;
         if el < lim && outer + 1 >= lim {
-            if attempt < 3 { cx.count("timeout:timing-rerun"); continue; }
-            cx.count("timeout:timing-unstable(skipped)");
-            return;
+            if attempt < TIMING_TRIES { cx.count(K_RERUN); std::thread::sleep(Duration::from_millis(25 * attempt as u64)); continue; }
+            cx.count(K_UNSTABLE);
+            real_clock_only = true;
         }
         let out = match &r { Err(_) => "PANIC".to_string(), Ok(x) => res_str(x) };
-        let i = cx.case(format!("TIMEOUT lim={lim} el={el} r={}", r_in.tok()), out.clone(), true);
         let want = match r_in {
             Oc::Err(k) => format!("ERR:{}:0", kind_name(k)),
             Oc::Ok if el > lim => "ERR:Timeout:T".to_string(),
             Oc::Ok => "OK:0".to_string(),
         };
         cx.count(if el > lim { "timeout:overrun" } else { "timeout:within" });
-        if out != want {
+        let legit_real_timeout = real_clock_only && r_in == Oc::Ok && out == "ERR:Timeout:T" && outer >= lim;
+        let bad = out != want && !legit_real_timeout;
+        if real_clock_only && !bad { return; }
+        let i = cx.case(format!("TIMEOUT lim={lim} el={el} r={}", r_in.tok()), out.clone(), true);
+        if bad {
             let sig = if want == "ERR:Timeout:T" { "timeout-not-reported" } else if out == "ERR:Timeout:T" { "timeout-spurious" } else { "timeout-wrong-outcome" };
             cx.oracle_fail(i, sig, format!("returned {out}, expected {want}"));
         }
         return;
+    }
+}
+
+/// Bound on the timed cases that could not be compared with the model (a nominally-within run that stayed
+/// within 1 ms of its limit TIMING_TRIES times in a row, or a generated case whose nominal time equals its
+/// limit): at most `max(2, near_limit_cases / 10)` per run. More than that means the timeout clauses were
+/// not really examined in this run (overloaded machine — or an implementation that takes longer than the
+/// durations it reports), which is a failure of the run, not something to pass over with a counter.
+fn check_timing_skip_rate(cx: &mut Ctx) {
+    let get = |cx: &Ctx, k: &str| cx.stats.get(k).copied().unwrap_or(0);
+    let near = get(cx, K_NEAR);
+    let reruns = get(cx, K_RERUN);
+    let lost = get(cx, K_UNSTABLE) + get(cx, K_AMBIG);
+    let allowed = (near / 10).max(2);
+    cx.count_n("timing:allowed-uncompared-cases(max(2, near-limit/10))", allowed);
+    cx.notes.push(format!(
+        "timing: {near} near-limit timed cases, {reruns} reruns, {lost} not compared with the model (allowed {allowed})"
+    ));
+    // the bound is itself a case (the driver recomputes `allowed` and the verdict from the three counts)
+    let verdict = if lost > allowed { "exceeded" } else { "ok" };
+    let i = cx.case(format!("TIMING near={near} reruns={reruns} lost={lost}"), format!("allowed={allowed} verdict={verdict}"), false);
+    if lost > allowed {
+        cx.oracle_fail(i, "timing-skip-rate-exceeded", format!(
+            "{lost} of {near} near-limit timed cases could not be compared with the model after {TIMING_TRIES} runs each (allowed: {allowed}); {reruns} reruns"
+        ));
     }
 }
 
@@ -706,26 +838,68 @@ pub fn run(cx: &mut Ctx) {
     // asked about all scripts of length <= 4 and, at length 5, about those in which nothing follows
     // the first terminal outcome (the closure never reveals what it would have answered after it)
     let model_len = 4usize;
+    // delay configurations of the exhaustive block: zero delays for every script; for the scripts in which
+    // nothing follows the end of the run, additionally real delays with initial < cap (1, 2, 2, ...) and
+    // initial > cap (2, 1, 1, ...), so that the "<= cap once backed off" clause is judged on non-trivial waits
+    let nz_cfgs = |max: u32| [RCfg { max, init: 1, cap: 2, mult: 2.0 }, RCfg { max, init: 2, cap: 1, mult: 2.0 }];
+    const PAR_THREADS: usize = 48;
     {
         let mut n_scripts = 0usize;
+        let mut n_canon = 0usize;
         let mut scripts: Vec<Vec<Oc>> = vec![];
         for_all_seqs(&outcomes, max_len, &mut |s| scripts.push(s.to_vec()));
+        // jobs with real sleeps, run on worker threads after the zero-delay pass
+        enum Job { Retry(&'static str, RCfg, Vec<Oc>), IoBatch(RCfg, usize, Vec<Oc>) }
+        let mut jobs: Vec<Job> = vec![];
+        let mut n_io_canon = 0usize;
         for s in &scripts {
             n_scripts += 1;
             let canonical = s.iter().position(Oc::terminal).map_or(true, |i| i + 1 == s.len());
             let to_model = s.len() <= model_len || canonical;
+            if canonical { n_canon += 1; }
             for max in 0..=6u32 {
                 one_retry(cx, "run", Some(zero(max)), None, 0, s, to_model);
                 one_retry(cx, "bld", Some(zero(max)), None, 0, s, to_model);
                 one_retry(cx, "exe", Some(zero(max)), None, 0, s, to_model);
-                if s.len() <= model_len {
-                    // per-item batch wrapper: the same script spread over 2 items
-                    one_iobatch(cx, zero(max), 2, s);
+                if canonical {
+                    // the remaining entry points on every script in which nothing follows the first terminal outcome
+                    one_retry(cx, "raw", Some(zero(max)), None, 0, s, true);
+                    one_retry(cx, "cio", Some(zero(max)), None, 0, s, true);
+                    for w in ["tr", "ciotr", "bld", "exe"] { one_retry(cx, w, Some(zero(max)), Some(60_000), 0, s, true); }
+                    for c in nz_cfgs(max) {
+                        for w in ["raw", "run", "cio", "bld", "exe"] { jobs.push(Job::Retry(w, c, s.clone())); }
+                    }
+                }
+                // per-item batch wrapper: the same script spread over 2 items — every script up to the full
+                // length; at length 5 the model is asked about the scripts the run consumes completely
+                let (_, _, consumed) = iobatch_expect(max, 2, s);
+                let io_canonical = consumed == s.len();
+                one_iobatch_m(cx, zero(max), 2, s, s.len() <= model_len || io_canonical);
+                if io_canonical {
+                    n_io_canon += 1;
+                    for c in nz_cfgs(max) { jobs.push(Job::IoBatch(c, 2, s.clone())); }
+                }
+                // ... and over 1 and 3 items where that run consumes the script completely
+                for n_items in [1usize, 3] {
+                    let (_, _, consumed) = iobatch_expect(max, n_items, s);
+                    if consumed == s.len() {
+                        one_iobatch_m(cx, zero(max), n_items, s, true);
+                        if n_items == 3 { for c in nz_cfgs(max) { jobs.push(Job::IoBatch(c, 3, s.clone())); } }
+                    }
                 }
             }
         }
+        let n_jobs = jobs.len();
+        let recs = par_map(&jobs, PAR_THREADS, |j| match j {
+            Job::Retry(w, c, s) => exec_retry(w, Some(*c), None, 0, s),
+            Job::IoBatch(c, n, s) => exec_iobatch(*c, *n, s),
+        });
+        for rec in recs { emit(cx, rec, true, "exhaustive:oracle-only"); }
         cx.exhaustive_blocks.push(format!(
-            "retry: all {n_scripts} outcome scripts of length <= {max_len} over {{Ok, 4 transient, 7 permanent kinds}} x max_attempts 0..6 x wrappers run_with_retry / OperationBuilder / CloudIOExecutor (+ run_cloud_io_batch over 2 items for length <= {model_len}); zero delays"
+            "retry: all {n_scripts} outcome scripts of length <= {max_len} over {{Ok, 4 transient, 7 permanent kinds}} x max_attempts 0..6 x wrappers run_with_retry / OperationBuilder / CloudIOExecutor + run_cloud_io_batch over 2 items, zero delays (model asked for length <= {model_len} and for every script that the run consumes completely; the rest judged by the oracle only)"
+        ));
+        cx.exhaustive_blocks.push(format!(
+            "retry, non-zero delays: the {n_canon} scripts of length <= {max_len} in which nothing follows the first Ok/permanent outcome x max_attempts 0..6 x {{initial 1 < cap 2, initial 2 > cap 1}} ms, multiplier 2.0 x retry_with_backoff / run_with_retry / run_cloud_io_with_retry / builder / executor; the same scripts with zero delays x run_with_timeout_and_retry / run_cloud_io_with_retry_and_timeout / builder / executor with a 60 s limit; run_cloud_io_batch over 2 and 3 items ({n_io_canon} completely consumed (script, budget) pairs for 2 items) with both non-zero delay configurations, over 1 item with zero delays ({n_jobs} runs with real sleeps on {PAR_THREADS} threads)"
         ));
     }
     {
@@ -823,7 +997,19 @@ pub fn run(cx: &mut Ctx) {
             one_retry(cx, w, None, Some(1), 4, &[Oc::Err(5), Oc::Ok], true);
             one_retry(cx, w, None, Some(60_000), 0, &[Oc::Ok], true);
         }
-        cx.exhaustive_blocks.push("timeout: with_timeout on all 12 outcomes x {within, overrun, zero limit}; retry+timeout with 40 ms calls against a 100 ms limit (1, 2, 3 attempts)".into());
+        // near-limit cases that are nominally WITHIN the limit (the only ones a slow machine can disturb; they
+        // are counted and bounded, see `check_timing_skip_rate`): with_timeout alone ...
+        for o in &outcomes { one_timeout(cx, 150, 0, *o); }
+        for o in [Oc::Ok, Oc::Err(5), Oc::Err(2), Oc::Err(6)] { one_timeout(cx, 150, 40, o); }
+        // ... and around retries whose waits count towards the elapsed time (calls of 10 ms, waits 5 + 8 ms)
+        let waits = RCfg { max: 4, init: 5, cap: 8, mult: 2.0 };
+        for s in &slow {
+            for w in ["tr", "ciotr", "bld", "exe"] {
+                one_retry(cx, w, Some(waits), Some(150), 10, s, true); // nominal <= 43 ms: within
+                one_retry(cx, w, Some(waits), Some(20), 10, s, true); // 2 calls + 1 wait = 25 ms: overrun from the 2nd attempt on
+            }
+        }
+        cx.exhaustive_blocks.push("timeout: with_timeout on all 12 outcomes x {within (60 s and 150 ms limits), overrun, zero limit}; retry+timeout with 40 ms calls against a 100 ms limit (1, 2, 3 attempts) and, for each of the four timeout+retry entry points, with 10 ms calls + 5/8 ms waits against 150 ms / 20 ms limits (an overall limit, not a per-attempt one)".into());
     }
 
     // ---- (3) random block: longer scripts, bigger budgets, all wrappers, small real delays ----
@@ -880,4 +1066,5 @@ pub fn run(cx: &mut Ctx) {
         let psize = *cx.rng.pick(&[0u32, 1, 10, 100, u32::MAX]);
         one_page(cx, w, psize, mp, &script);
     }
+    check_timing_skip_rate(cx);
 }
